@@ -34,10 +34,13 @@ var c10Setups = map[string][][]string{
 	"string":     {{"SET", "w", "10"}, {"SET", "o", "ov"}, {"RPUSH", "l", "x", "y"}, {"SADD", "s", "a", "z"}},
 	"string-ttl": {{"SET", "w", "10", "EX", "1000"}, {"SET", "o", "ov"}},
 	"strtext":    {{"SET", "w", "text"}, {"SET", "o", "ov"}},
-	"list":       {{"RPUSH", "w", "a", "b", "c", "a"}, {"SET", "o", "ov"}, {"RPUSH", "l", "x", "y"}},
-	"list-ttl":   {{"RPUSH", "w", "a", "b"}, {"EXPIRE", "w", "1000"}},
-	"hash":       {{"HSET", "w", "f", "v", "n", "5"}, {"SET", "o", "ov"}},
-	"set":        {{"SADD", "w", "a", "b", "c"}, {"SADD", "s", "a", "z"}, {"SET", "o", "ov"}},
+	// the watched key is gone for every command, but its object still lingers in the emulator's table
+	"unlinked":       {{"SET", "w", "10"}, {"UNLINK", "w"}, {"SET", "o", "ov"}, {"RPUSH", "l", "x", "y"}},
+	"expired-stored": {{"RPUSH", "w", "a"}, {"PEXPIREAT", "w", "1"}, {"SET", "o", "ov"}, {"RPUSH", "l", "x", "y"}},
+	"list":           {{"RPUSH", "w", "a", "b", "c", "a"}, {"SET", "o", "ov"}, {"RPUSH", "l", "x", "y"}},
+	"list-ttl":       {{"RPUSH", "w", "a", "b"}, {"EXPIRE", "w", "1000"}},
+	"hash":           {{"HSET", "w", "f", "v", "n", "5"}, {"SET", "o", "ov"}},
+	"set":            {{"SADD", "w", "a", "b", "c"}, {"SADD", "s", "a", "z"}, {"SET", "o", "ov"}},
 }
 
 func c10Table() []c10Write {
@@ -95,6 +98,10 @@ func c10Table() []c10Write {
 		[]string{"SMOVE", "nokey", "w", "a"}, []string{"SINTERSTORE", "o3", "w", "s"}, []string{"INCR", "w"})
 	add("missing", false, []string{"GET", "w"}, []string{"EXISTS", "w"}, []string{"LPOP", "w"}, []string{"TTL", "w"}, []string{"SET", "o", "x"}, []string{"EXPIRE", "w", "100"}, []string{"PERSIST", "w"}, []string{"SET", "w", "v", "XX"}, []string{"RENAME", "nokey", "w"},
 		[]string{"LMOVE", "nokey", "w", "LEFT", "LEFT"}, []string{"SMOVE", "s", "w", "notmember"}, []string{"GETDEL", "w"}, []string{"LRANGE", "w", "0", "-1"}, []string{"SMEMBERS", "w"}, []string{"HGETALL", "w"})
+	for _, st := range []string{"unlinked", "expired-stored"} {
+		add(st, false, []string{"GET", "o"}, []string{"EXISTS", "w"}, []string{"TYPE", "w"}, []string{"TTL", "w"}, []string{"SET", "o", "x"}, []string{"DEL", "w"}, []string{"PERSIST", "w"}, []string{"LPOP", "w"}, []string{"KEYS", "*"}, []string{"PING"})
+		add(st, true, []string{"SET", "w", "v"}, []string{"LPUSH", "w", "x"}, []string{"RENAME", "o", "w"}, []string{"LMOVE", "l", "w", "LEFT", "LEFT"}, []string{"SADD", "w", "m"}, []string{"APPEND", "w", "x"})
+	}
 	// watch dropped before the modification takes effect for EXEC
 	for _, u := range []string{"unwatch", "discard", "exec"} {
 		t = append(t, c10Write{name: "after-" + u + "/SET", state: "string", setup: c10Setups["string"], cmd: []string{"SET", "w", "changed"}, modify: false, unwatch: u})
